@@ -52,6 +52,13 @@ CLAIMS["C01"] = ("symbolic evaluation of the JSON back end on all 96 paths (row-
     "Decides on every path of the JSON back end: returned rows = notnull(dur) & notnull(cat) minus cat == 'Trace' and nothing else; id column = position in the event list; ts=ceil(ts), end=floor(un-rounded ts+dur), dur=end-ts with no further adjustment; cat/name encoded through the id map of the returned local table, which was fed both columns' symbols; stream = int(stream) else -1; stream/correlation arg specs name==raw_name, default -1; one shift = min over all ranks of the per-rank min ts, stored in min_ts, subtracted from every rank and added back by the only un-shifting consumer; end = ts + dur at the exits of parse-only and full load; load_traces indexes by the id column with drop=False after align/trim. pandas' JSON decoding and the ijson back ends are not decided.",
     "3/C01")
 
+CLAIMS["C17"] = ("symbolic evaluation of the summary/comparison pipelines (multi-index flattening and column-wise concat modelled); finite decision table of the five class masks over (control, test) sign patterns; call-argument wiring",
+    "Decides: event selection = iteration isin(requested) & device predicate (CPU stream==-1, GPU stream!=-1, ALL none) on the requested rank's frame; summary = count and sum of dur per (cat,name) renamed counts/total_duration and decoded through the table; comparison regroups by the chosen name column with sum, outer column-wise concat of control and test, fillna 0, differences test - control, each trace selected with its own rank/iteration arguments; the five masks evaluated on ten consistent count patterns are pairwise disjoint, exhaustive, and map identical inputs to 'unchanged' only.",
+    "3/C17")
+CLAIMS["C18"] = ("effect analysis over the evaluator's event log (purity, statelessness), shape analysis of returned frames on every path (selection-only), predicate terms / decision tables per filter, row-locality classification, AST rule for the dtype idiom",
+    "Decides for all 13 filter classes, with and without a symbol table, on every path: no mutation of the input frame or alias; no attribute store on the filter inside __call__ (no call-to-call state); every returned frame is the input, a mask selection of it built from its own rows, or pd.DataFrame() on a no-match path - never re-ordered, re-indexed, or extended; each filter's selection predicate equals the documented one (membership, full containment in the time range, anchored str.match, ids of matching symbols of the given table, device/host side as 18-case tables, memcpy name&cat); only the iteration-index filters depend on the whole frame and they sort the distinct iterations; CompositeFilter threads the frame through its members in order; the string-column test accepts every pandas string dtype.",
+    "3/C18")
+
 REASON_WIP = "checker under construction in this session (see DESIGN.md section 3); not claimed until its check is committed"
 
 
